@@ -142,3 +142,26 @@ func VerifC11_q_listThenReleaseBatch() {
 	verifAssert("C11/batch-key-1", got[0].KeyObj.KeyInDB == k1, "first entry of a batch addresses a different key than the one that holds its IP")
 	verifAssert("C11/batch-key-2", got[1].KeyObj.KeyInDB == k2, "second entry of a batch addresses a different key than the one that holds its IP")
 }
+
+// BOUND: one release request with the entries the list shows for one owner that holds 2..3 IPs under a single key: the reserve of a deployment, the reserve of a pool, or a pod that requested several IPs (concrete names); every entry must reach the plugin, each with its own IP
+func VerifC11_q_sameKeyBatch() {
+	key := []string{"dp_ns1_web_", "pool__pl1_", "sts_ns1_db_db-0"}[nondetChoice(3)]
+	n := 2 + nondetChoice(2)
+	ips := []string{"10.1.0.10", "10.1.0.11", "10.1.0.12"}[:n]
+	var entries []FloatingIP
+	for _, ip := range ips {
+		entries = append(entries, convert(&floatingip.FloatingIP{Key: key, IP: net.ParseIP(ip), Policy: 2}))
+	}
+	var got []*schedulerplugin.ReleaseRequest
+	c := &Controller{podLister: vNoPods{}, releaseFunc: func(r *schedulerplugin.ReleaseRequest) error {
+		got = append(got, r)
+		return nil
+	}}
+	verifSetRequestEntity(ReleaseIPReq{IPs: entries})
+	c.ReleaseIPs(vReq, vResp)
+	verifReach("same-key-batch-posted")
+	verifAssert("C11/same-key-batch-all-released", len(got) == n, "entries that share one key were not all released when posted in one request")
+	for i := 0; i < len(got) && i < n; i++ {
+		verifAssert("C11/same-key-batch-ip", got[i].IP.Equal(net.ParseIP(ips[i])) && got[i].KeyObj.KeyInDB == key, "an entry of a same-key batch reached the plugin with another IP or key")
+	}
+}
